@@ -75,6 +75,7 @@ package sensors
 //@   returns (result, err)
 //@   requires sensor.Config.Cmd != nil
 //@   ensures[C08.finite]    err == nil ==> fin(result)
+//@   ensures[C19.once] forall e string :: started[e] == old(started)[e] || (e == sensor.Config.Cmd.Exec && started[e] == old(started)[e] + 1)
 //@   modifies procWorld, started, lastValue
 //@ func (*CmdSensor).GetMovingAvg
 //@   params (sensor)
